@@ -1504,6 +1504,13 @@ impl TypeChecker {
         // Skip the first parameter if we are checking a method
         let params =
             if let ResolvedPath::Method { value, .. } = &resolved_path {
+                // A function without parameters cannot take a receiver
+                if signature.parameter_types.is_empty() {
+                    return Err(self.error_no_method_on_type(
+                        value.final_type(),
+                        last_ident,
+                    ));
+                }
                 self.unify(
                     value.final_type(),
                     &signature.parameter_types[0],
@@ -1541,6 +1548,12 @@ impl TypeChecker {
         let Some(function) = self.get_method(&ty, field) else {
             return Err(self.error_no_method_on_type(&ty, field));
         };
+
+        // A function without parameters (e.g. `List.new`) cannot take a
+        // receiver, so it is not a method.
+        if function.signature.parameter_types.is_empty() {
+            return Err(self.error_no_method_on_type(&ty, field));
+        }
 
         // This might seem silly but we are unifying the receiver type with the
         // _instantiated_ type of the method.
